@@ -50,6 +50,10 @@ static void dumpVList(vio::Out & o, const POMDP::VList & l) {     // <n> then pe
     o << l.size();
     for (const auto & e : l) { o << e.action; dumpVec(o, e.values); }
 }
+static void dumpVListFull(vio::Out & o, const POMDP::VList & l) { // <n> then per entry: <action> <links…> <S values>
+    o << l.size();
+    for (const auto & e : l) { o << e.action; o.list(e.observations); dumpVec(o, e.values); }
+}
 static void dumpMat(vio::Out & o, const Matrix2D & q) {          // <rows> <cols> row-major values
     o << (size_t) q.rows() << (size_t) q.cols();
     for (Eigen::Index s = 0; s < q.rows(); ++s) for (Eigen::Index a = 0; a < q.cols(); ++a) o << (double) q(s, a);
@@ -105,8 +109,8 @@ static void direct(const M & model, const Tables & t, unsigned hB, unsigned hF, 
     { POMDP::BlindStrategies s(hB, 0.0); auto [var, vl] = s(model, false); o << "blindF" << var; dumpVList(o, vl); }
     if (doFib) { POMDP::FastInformedBound s(hF, 0.0); auto [var, q] = s(model); o << "fib" << var; dumpMat(o, q); }
     { POMDP::QMDP s(hQ, 0.0); auto [var, vf, q] = s(model); o << "qmdp" << var; dumpMat(o, q); dumpVList(o, vf.back()); }
-    { POMDP::PBVI s(0, hP, 0.0); auto [var, vf] = s(model, bs); o << "pbvi" << var << vf.size(); for (const auto & l : vf) dumpVList(o, l); }
-    { POMDP::PERSEUS s(nPers, hP, 0.0); auto [var, vf] = s(model, minRew); o << "perseus" << var << vf.size(); for (const auto & l : vf) dumpVList(o, l); }
+    { POMDP::PBVI s(0, hP, 0.0); auto [var, vf] = s(model, bs); o << "pbvi" << var << vf.size(); for (const auto & l : vf) dumpVListFull(o, l); }
+    { POMDP::PERSEUS s(nPers, hP, 0.0); auto [var, vf] = s(model, minRew); o << "perseus" << var << vf.size(); for (const auto & l : vf) dumpVListFull(o, l); }
     (void) t;
 }
 
@@ -161,10 +165,26 @@ int main(int argc, char ** argv) {
                     ++count; snaps << sn.lb << sn.ub; dumpVList(snaps, *sn.lbVList); dumpMat(snaps, *sn.ubQ); dumpUbV(snaps, *sn.ubV);
                     return count >= maxIter;
                 };
+                vio::Out evs; unsigned nev = 0;
+#ifdef AITOOLBOX_VERIF_SARSOP_EVENTS
+                // every change of the bounds: kind, (belief, LB, UB, corner?, cornerState, ubAction), state after the event
+                POMDP::SARSOP::verifEventObserver() = [&](const POMDP::SARSOP::VerifEvent & e) {
+                    if (nev >= 80) return;
+                    ++nev; evs << (int) e.kind;
+                    if (e.kind == POMDP::SARSOP::VerifEvent::Backup) {
+                        dumpVec(evs, *e.belief); evs << e.LB << e.UB << e.corner << e.cornerState << e.ubAction;
+                    }
+                    dumpVList(evs, *e.lbVList); dumpMat(evs, *e.ubQ); dumpUbV(evs, *e.ubV);
+                };
+#endif
                 auto [lb, ub, vl, q] = s(dense, b0);
                 POMDP::SARSOP::verifObserver() = nullptr;
+#ifdef AITOOLBOX_VERIF_SARSOP_EVENTS
+                POMDP::SARSOP::verifEventObserver() = nullptr;
+#endif
                 co << "ret" << lb << ub; dumpVList(co, vl); dumpMat(co, q);
                 co << "snaps" << count; co.os << snaps.os.str();
+                co << "events" << nev; co.os << evs.os.str();
 #else
                 (void) maxIter;
                 auto [lb, ub, vl, q] = s(dense, b0);
